@@ -22,6 +22,11 @@ func feasiblePaths(fn *ssa.Function, limit int) ([]*DPath, error) {
 	if err != nil {
 		return nil, err
 	}
+	return filterFeasible(paths), nil
+}
+
+// filterFeasible drops the paths that take the same condition both ways.
+func filterFeasible(paths []*DPath) []*DPath {
 	var out []*DPath
 	for _, d := range paths {
 		seen := map[string]bool{}
@@ -40,7 +45,7 @@ func feasiblePaths(fn *ssa.Function, limit int) ([]*DPath, error) {
 			out = append(out, d)
 		}
 	}
-	return out, nil
+	return out
 }
 
 // returnDesc names what a path returns as its error: nil, a package-level Err* variable, or "err".
